@@ -153,7 +153,9 @@ def _detect_compressor(fileobj):
         return "compat"
     else:
         for name, compressor in _COMPRESSORS.items():
-            if first_bytes.startswith(compressor.prefix):
+            # A compressor registered without a magic number (prefix b"")
+            # cannot be recognised from the content of a file.
+            if compressor.prefix and first_bytes.startswith(compressor.prefix):
                 return name
 
     return "not-compressed"
